@@ -1,5 +1,5 @@
 """Property -> rule composition.  Each function decides the statically decidable clauses of one property."""
-from .rules import kdefects, numeric, seed, typestate, ownership, clifford, circuit, stabilizer, adjoint, manifold, gellmann, twins, backend, masks, axes, pauli, convexroof, boundary, measure, relabel, angles, shapes, hermitian
+from .rules import kdefects, numeric, seed, typestate, ownership, clifford, circuit, stabilizer, adjoint, manifold, gellmann, twins, backend, masks, axes, pauli, convexroof, boundary, measure, relabel, angles, shapes, hermitian, ptrace
 
 M = 'numqi.'
 DECISION_C05 = ['numqi.entangle.ppt.is_ppt', 'numqi.entangle.ppt.is_generalized_ppt',
@@ -322,8 +322,20 @@ def c20(proj, rep, tier):
     rep.floor('G3 analyse/reduce/synthesise sites', n, 4)
 
 
+def c17(proj, rep, tier):
+    n = ptrace.pt1(proj, rep)
+    rep.floor('PT1 partial_trace leg-typing obligations', n, 4)
+    n = ptrace.pt2(proj, rep)
+    rep.floor('PT2 Dicke reduction table obligations', n, 3)
+    n = ptrace.pt3(proj, rep)
+    rep.floor('PT3 reduction contraction / reorder obligations', n, 3)
+    backend.b1(proj, rep, ['numqi.dicke'], expect_match={'numqi.dicke.partial_trace_ABk_to_AB#0'})
+    rep.assume('orthonormality / permutation invariance of the Dicke vectors and the occupation-number identity itself '
+               '(<r|D_a><D_b|s> summed over the other copies) are value-level: not decided')
+
+
 def dev(proj, rep, tier):
     pass
 
 
-PROPS = {'C01': c01, 'C02': c02, 'C06': c06, 'C08': c08, 'C13': c13, 'C12': c12, 'C15': c15, 'C16': c16, 'C03': c03, 'C04': c04, 'C05': c05, 'C07': c07, 'C19': c19, 'C10': c10, 'C11': c11, 'C18': c18, 'C20': c20, 'DEV': dev}
+PROPS = {'C01': c01, 'C02': c02, 'C06': c06, 'C08': c08, 'C13': c13, 'C12': c12, 'C15': c15, 'C16': c16, 'C03': c03, 'C04': c04, 'C05': c05, 'C07': c07, 'C19': c19, 'C10': c10, 'C11': c11, 'C18': c18, 'C20': c20, 'C17': c17, 'DEV': dev}
